@@ -408,8 +408,8 @@ impl Signature {
     /// Version 6 signatures and version 6 keys are strongly linked:
     /// - only a v6 key may produce a v6 signature
     /// - a v6 key may only produce v6 signatures
-    fn check_signature_key_version_alignment(
-        key: &impl KeyDetails,
+    pub(crate) fn check_signature_key_version_alignment(
+        key: &(impl KeyDetails + ?Sized),
         config: &SignatureConfig,
     ) -> Result<()> {
         // Every signature made by a version 6 key MUST be a version 6 signature.
